@@ -1,9 +1,9 @@
 (* C10 — shared codecs and schema caches are safe for concurrent use.
    Only statements, closed by [exact lemma], with Print Assumptions beneath. *)
 From Coq Require Import String List NArith Bool.
-From J5V.model Require Import Conc ConcKey ConcSites ConcCorr ConcRace ConcStatement ConcState ConcRW ConcHB.
+From J5V.model Require Import Conc ConcKey ConcSites ConcCorr ConcRace ConcStatement ConcState ConcRW ConcHB ConcProbe.
 From J5V.gen Require ConcGen ConcStateGen.
-From J5V.proofs Require Import ConcProofs ConcLeafProofs ConcInvProofs ConcTermProofs ConcMainProofs ConcRetProofs ConcRaceProofs ConcFullProofs ConcKeyProofs ConcRWProofs ConcHBProofs.
+From J5V.proofs Require Import ConcProofs ConcLeafProofs ConcInvProofs ConcTermProofs ConcMainProofs ConcRetProofs ConcRaceProofs ConcFullProofs ConcKeyProofs ConcRWProofs ConcHBProofs ConcProbeProofs.
 Import ListNotations.
 Local Open Scope N_scope.
 
@@ -542,3 +542,41 @@ Print Assumptions C10_hb_respects_trace_order.
 Theorem C10_unguarded_not_drf : ~ drf w1_trace.
 Proof. exact unguarded_not_drf. Qed.
 Print Assumptions C10_unguarded_not_drf.
+
+(* ---- the token tables against the MACHINE (not against a typed-in table) --------------------- *)
+(* static_tokens: the regenerated Go tokens of a function, callees of the tables spliced in, deferred
+   unlock at the end.  probe_tokens: a run of the machine of Conc.v on a probe universe — the events of
+   ConcRace.lstep_events / enter_events / fin_events (the functions the race theorems quantify over)
+   rendered as tokens, and the hook reached after every step.  Equal token by token: a changed order
+   of cache operations in the Go source, or a step function / event function of the model that does
+   something else, breaks these.  (C10_cache_methods_agree above compares with a typed-in table and is
+   kept as a change detector for the functions the probes do not run: SchemaSetFromFiles,
+   buildEnumFieldSchema, messageProperties.) *)
+Theorem C10_schema_tokens_are_machine_steps_error_path :
+  (static_tokens ConcGen.cache_methods "Schema"%string ++ ["return"%string])%list = probe_tokens probe_failing 5.
+Proof. exact schema_tokens_error_path. Qed.
+Print Assumptions C10_schema_tokens_are_machine_steps_error_path.
+
+Theorem C10_schema_tokens_are_machine_steps_ok_path :
+  (without ["delete:Schemas"%string] (static_tokens ConcGen.cache_methods "Schema"%string) ++ ["return"%string])%list = probe_tokens probe_leaf 5.
+Proof. exact schema_tokens_ok_path. Qed.
+Print Assumptions C10_schema_tokens_are_machine_steps_ok_path.
+
+(* a field of message type (buildMessageFieldSchema -> newRefPlaceholder -> refTo -> referencePackage,
+   To, ref.linked) = the machine's steps from refto.lookup to ref.linked, up to the position of the two
+   accesses of referencePackage relative to the refto.lookup hook (before it in Go, in the step after it
+   in the machine: no hook separates them from the lookup, one critical section) *)
+Theorem C10_field_tokens_are_machine_steps :
+  without pkg_tokens field_static = without pkg_tokens nested_segment /\
+  filter (fun t => in_strs t pkg_tokens) field_static = pkg_tokens /\
+  filter (fun t => in_strs t pkg_tokens) nested_segment = pkg_tokens.
+Proof. exact refto_tokens. Qed.
+Print Assumptions C10_field_tokens_are_machine_steps.
+
+(* the probes render the event traces of the race theorems *)
+Theorem C10_probe_is_the_event_trace :
+  as_events (probe_tokens probe_leaf 5) = probe_event_tokens probe_leaf 5 /\
+  as_events (probe_tokens probe_failing 5) = probe_event_tokens probe_failing 5 /\
+  as_events (probe_tokens probe_nested 9) = probe_event_tokens probe_nested 9.
+Proof. exact probe_is_the_event_trace. Qed.
+Print Assumptions C10_probe_is_the_event_trace.
